@@ -67,14 +67,17 @@ def eval_case(case):
     has_interp = any(d["kind"] == "alpha" for d in ps.values())
     tl = C.set_backend(be)
     try:
-        for cn, ch_ in (SETTINGS if (has_interp and len(case["combo"]) <= 1) else SETTINGS[:1]):
+        variants = [(cn, ch_, {}) for cn, ch_ in (SETTINGS if (has_interp and len(case["combo"]) <= 1) else SETTINGS[:1])]
+        if len(case["combo"]) <= 1:
+            variants.append(("code4", "code4p", {"clip_sample_data": 14.0, "clip_bin_data": 40.0}))
+        for cn, ch_, clipkw in variants:
             ms = {"normsys": {"interpcode": cn}, "histosys": {"interpcode": ch_}}
-            m0 = pyhf.Model(spec, poi_name="mu", modifier_settings=ms)
+            m0 = pyhf.Model(spec, poi_name="mu", modifier_settings=ms, **clipkw)
             cfg = m0.config
             for B in case["batches"]:
-                ctx = dict(labels=labels, backend=be, batch=B, interp=[cn, ch_])
+                ctx = dict(labels=labels, backend=be, batch=B, interp=[cn, ch_], clip=clipkw)
                 try:
-                    mb = pyhf.Model(spec, poi_name="mu", modifier_settings=ms, batch_size=B)
+                    mb = pyhf.Model(spec, poi_name="mu", modifier_settings=ms, batch_size=B, **clipkw)
                 except Exception as e:
                     issues.append(C.issue(f"C10:build:{type(e).__name__}", f"batched model refused: {e}"[:300], **ctx))
                     continue
